@@ -1559,13 +1559,15 @@ class PooledClient:
                 else:
                     raise
 
-    def gats(self, key: Key, expire: int = 0, default: Optional[Any] = None) -> Any:
+    def gats(
+        self, key: Key, expire: int = 0, default: Any = None, cas_default: Any = None
+    ) -> tuple[Any, Any]:
         with self.client_pool.get_and_release(destroy_on_fail=True) as client:
             try:
-                return client.gats(key, expire, default)
+                return client.gats(key, expire, default, cas_default)
             except Exception:
                 if self.ignore_exc:
-                    return default
+                    return (default, cas_default)
                 else:
                     raise
 
@@ -1581,13 +1583,15 @@ class PooledClient:
 
     get_multi = get_many
 
-    def gets(self, key: Key) -> tuple[Any, Any]:
+    def gets(
+        self, key: Key, default: Any = None, cas_default: Any = None
+    ) -> tuple[Any, Any]:
         with self.client_pool.get_and_release(destroy_on_fail=True) as client:
             try:
-                return client.gets(key)
+                return client.gets(key, default, cas_default)
             except Exception:
                 if self.ignore_exc:
-                    return (None, None)
+                    return (default, cas_default)
                 else:
                     raise
 
